@@ -98,7 +98,21 @@ def check_fit(ctx, model, case, V, rec, label=''):
             ctx.problem('oracle', 'fitted space-time model does not evaluate to the documented combination of the marginal models%s' % label, case,
                         {'lags': lags.tolist(), 'got': out.tolist(), 'documented': wantv, 'single': single}, {'what': 'model-combination', 'model': mname})
             break
+    # integer-typed (N, 2) lag arrays: same values as the same lags given as floats
+    try:
+        li = np.array([[1, 1], [2, 1], [3, 2], [5, 3]], dtype=rng_int_dtype(case))
+        oi = np.asarray(fm(li), float).ravel()
+        of = np.asarray(fm(li.astype(float)), float).ravel()
+        if len(oi) != len(of) or not all(gen.close(a_, b_, 1e-12, 1e-12) for a_, b_ in zip(oi, of)):
+            ctx.problem('oracle', 'fitted space-time model evaluated on an integer-typed lag array (%s) differs from the same lags as floats%s' % (li.dtype, label), case,
+                        {'int': oi.tolist(), 'float': of.tolist()}, {'what': 'int-lag-array', 'model': mname})
+    except Exception as e:
+        ctx.count('int_lags_rejected', type(e).__name__)
     return True
+
+
+def rng_int_dtype(case):
+    return ['int64', 'int32', 'uint8'][len(case['coords']) % 3]
 
 
 def run(ctx, replay=None):
@@ -110,12 +124,24 @@ def run(ctx, replay=None):
     try:
         n = 45 if not ctx.thorough() else 450
         cases = [replay['case']] if replay and replay.get('case') else vc.corpus_cases('C15') + [st.gen_case(rng, nmax=9, tmax=6) for _ in range(n)]
+        if not replay:
+            # always part of a run: space lag edges numerically identical to time lag edges
+            for i_ in range(4):
+                ec = st.gen_case(rng, nmax=9, tmax=6)
+                ec.update(xbins='even', tbins='even', explicit_bins={'x': [1.0, 2.0, 3.0, 4.0][: 3 + i_ % 2], 't': [1.0, 2.0, 3.0]}, x_lags=3 + i_ % 2, t_lags=3, maxlag=None, model=['product-sum', 'product', 'sum', 'product-sum'][i_],
+                          coords=[[float(a_), float(b_)] for a_ in range(3) for b_ in range(3)][: len(ec['coords'])] if len(ec['coords']) <= 9 else ec['coords'])
+                ec['values'] = ec['values'][: len(ec['coords'])]
+                ec['tags'] = dict(ec['tags'], stream='equal-space-time-edges')
+                cases.append(ec)
         for case in cases:
             ctx.count('model', case['model'])
             ctx.count('lags', 'equal' if case['x_lags'] == case['t_lags'] else 'different')
             try:
                 with FitRecorder() as rec:
                     V = st.build(case)
+                    if case.get('explicit_bins'):
+                        V.xbins = list(case['explicit_bins']['x'])
+                        V.tbins = list(case['explicit_bins']['t'])
                     V.fit()
                     ok = check_fit(ctx, model, case, V, rec)
                     nan_cells = int(np.sum(np.isnan(np.asarray(V.experimental, float))))
